@@ -57,7 +57,9 @@ PROPS = {
         "bundles": ["chanbuf"], "kani": ["body"],
         "fns": {"chanbuf": ["Message::length", "Message::try_clone", "Message::set_content"]},
         "assumptions": [A_KANI, "'all body types' is covered by instances {u8,u32,u64,(),[u8;4],Tok(with Drop),Other,NoClone}"],
-        "not_covered": ["the derive macro's byte_len (sum over fields of the active variant): des-macros-core is not covered", "Body::length is linked to the Verus unit by an assumed contract (proved on the Kani side)"],
+        "not_covered": ["the derive macro's byte_len (sum over fields of the active variant): des-macros-core is not covered", "Body::length is linked to the Verus unit by an assumed contract (proved on the Kani side)",
+                        "BOUNDED only (replay/msg_driver, never counted as proved): the same clauses observed through Message (set_content with the same type again or another type, try_content(_mut), try_clone, matching and non-matching try_cast, drop; u32, u64, String, Vec<u8>, (), a drop-counting clonable type, a non-clonable type): readable as exactly the stored type and value, length() = 64 + declared byte length after every operation, every stored value dropped exactly once",
+                        "BOUNDED only (replay/net_driver): 'which is the size channels charge for' - delivery times of messages in flight follow 64 + body length"],
     },
     "C05": {
         "bundles": ["interval"],
